@@ -142,6 +142,62 @@ def inner_match(crate, body, enum):
     return best
 
 
+def _branch_tails(body):
+    """(value expression, enclosing branch block) for every branch of an if / else-if chain (or a plain block) that is
+    the value of `body`"""
+    b = peel(body)
+    res = []
+
+    def rec(e, scope):
+        e = peel(e)
+        if e.get("k") == "Block":
+            if e.get("tail") is not None:
+                rec(e["tail"], e)
+            return
+        if e.get("k") == "If" and e.get("else") is not None:
+            rec(e["then"], e["then"])
+            rec(e["else"], e["else"])
+            return
+        if e.get("k") == "Match" and str(e.get("src")) == "Normal":
+            for a in e["arms"]:
+                rec(a["body"], a["body"])
+            return
+        res.append((e, scope))
+
+    rec(b, b)
+    return res
+
+
+def _path_conditions(body, target):
+    """[(condition, polarity)] of the `if`s on the way from `body` down to the node `target`"""
+    res = []
+
+    def rec(e, acc):
+        if e is target:
+            res.extend(acc)
+            return True
+        if isinstance(e, dict):
+            if e.get("k") == "If":
+                if rec(e["cond"], acc):
+                    return True
+                if rec(e["then"], acc + [(e["cond"], True)]):
+                    return True
+                if e.get("else") is not None and rec(e["else"], acc + [(e["cond"], False)]):
+                    return True
+                return False
+            for v_ in e.values():
+                if isinstance(v_, (dict, list)) and rec(v_, acc):
+                    return True
+        elif isinstance(e, list):
+            for x in e:
+                if rec(x, acc):
+                    return True
+        return False
+
+    rec(body, [])
+    return res
+
+
 def rule_oblig(crate, select=None, min_rows=30):
     out = RuleOut("OBLIG", "the type checker emits a constraint for exactly the relations the run-time operations rely on")
     fe = crate.find_fn("typechecker::TypeChecker::elaborate_expression")
@@ -204,6 +260,34 @@ def rule_oblig(crate, select=None, min_rows=30):
                 row("binop:%s:no-lhs~rhs" % v, not bad, a["pat"], "no equality is demanded between the operands", "`%s` demands equal operand types: dimensionally consistent programs such as `2 m * 3 s` would be rejected" % v)
                 if v in ("Mul", "Div"):
                     row("binop:%s:dtype" % v, c.has_dtype({"lhs"}) and c.has_dtype({"rhs"}), a["pat"], "both operands are constrained to be dimension types", "an operand of `%s` is not constrained to be a dimension type" % v)
+                    # the RESULT type on every branch of the arm: computed from both operand types (closed path), or a
+                    # fresh variable tied to both by an EqualScalar constraint in the same branch (open path) — never
+                    # just one operand's type (`k / x` has the type 1/x, not the type of x)
+                    bad_branch = None
+                    n_br = 0
+                    for (tail, scope) in _branch_tails(a["body"]):
+                        n_br += 1
+                        tg = tags_of(tail, c.inits, tagmap) & {"lhs", "rhs"}
+                        if tg == {"lhs", "rhs"}:
+                            continue
+                        if not tg and any((ctor_variant(y) or ("", ""))[1] == "EqualScalar" for y in walk(scope) if y.get("k") in ("Call", "Struct")):
+                            continue
+                        # scaling by a plain number: `x * k`, `x / k` keep the type of x, and so does `k * x` — but not
+                        # `k / x`.  Accepted only with direct evidence on the path: the OTHER operand tested is_scalar()
+                        # positively, and for a result that is the RIGHT operand's type, the operator tested to be Mul
+                        if len(tg) == 1:
+                            pcs = _path_conditions(a["body"], tail)
+                            other = "rhs" if tg == {"lhs"} else "lhs"
+                            other_scalar = any(pol and x.get("k") == "MethodCall" and x["name"] == "is_scalar" and other in tags_of(x["recv"], c.inits, tagmap) and not ({"lhs", "rhs"} - {other}) & tags_of(x["recv"], c.inits, tagmap) for (cnd, pol) in pcs for x in [peel(cnd)])
+                            is_mul = vs == {"Mul"} or any(pol and any(p_.get("variant") == "Mul" for p_ in walk(cnd)) for (cnd, pol) in pcs)
+                            if other_scalar and (tg == {"lhs"} or (is_mul and v == "Mul")):
+                                continue
+                        bad_branch = (tail, tg)
+                    if n_br == 0:
+                        out.error("anchor missing: result type branches of the %s arm" % v)
+                    row("binop:%s:result-type" % v, bad_branch is None, bad_branch[0] if bad_branch else a["pat"],
+                        "on each of the %d branches the result type is computed from both operand types or tied to them by an EqualScalar constraint" % n_br,
+                        "a branch of the `%s` arm yields the type of %s as the type of the result without relating it to the other operand: `fn inv(x) = 1 / x` gets the type (A) -> A, `inv(2 s) + 1 s` is accepted and fails at run time" % (v, ("the %s operand alone" % "/".join(sorted(bad_branch[1]))) if bad_branch and bad_branch[1] else "neither operand"))
                 if v == "Power":
                     row("binop:Power:exponent", c.has_dtype({"rhs"}) and (c.has_const({"rhs"}) and c.has_equal({"rhs"}, {"Scalar"})), a["pat"],
                         "exponent is a dimension type; scalar base: exponent ~ Scalar; otherwise the exponent must be a compile-time constant (evaluate_const_expr)",
